@@ -307,6 +307,11 @@ pub struct W {
     /// (cid, seq, first gated item, gate): the reply stream the service creates for that call
     /// produces its later items only once the gate holds.
     pub stream_gates: Vec<(u32, u32, usize, Gate)>,
+    /// (cid, seq) of calls whose reply stream has all its items ready from the start (a stream
+    /// that never returns `Pending` until it is exhausted).
+    pub eager_streams: Vec<(u32, u32)>,
+    /// Event numbers at which a service stream handed an item to the server.
+    pub stream_item_seqs: Vec<u64>,
 }
 
 pub const STEP_CAP_PANIC: &str = "ZSIM_STEP_CAP";
@@ -362,6 +367,8 @@ impl W {
             live_streams: Vec::new(),
             stream_size_hint: 0,
             stream_gates: Vec::new(),
+            eager_streams: Vec::new(),
+            stream_item_seqs: Vec::new(),
         }))
     }
 
@@ -1309,6 +1316,8 @@ impl SimStream {
             }
             let it = w.streams[id].available.pop_front().unwrap();
             w.ev("stream.item", id as u64, it.0);
+            let sq = w.seq;
+            w.stream_item_seqs.push(sq);
             return Poll::Ready(Some(it));
         }
         if w.streams[id].ended {
